@@ -961,6 +961,12 @@ class Interp:
                         pass
             if changed and ("." in path):
                 self.oblige(f"{tag}:frame[{path}]", False, "frame")
+            elif tag == "fn" and "." not in path and m[0] == "cell" and \
+                    m[1].version != m[2]:
+                # an array / list PARAMETER written in place (rebinding the
+                # local name does not count: the caller's object is what the
+                # mark holds) although the contract's frame excludes it
+                self.oblige(f"{tag}:frame[{path}]", False, "frame")
 
     def havoc_like(self, v, name):
         if isinstance(v, Cell):
